@@ -87,7 +87,7 @@ func TestC06(t *testing.T) {
 	forCases(60, 65, "r", func(i int, r *rng, id string) { c06Race(r, id) })
 	c19Prop = "C06"
 	forCases(n/20, 64, "p", func(i int, r *rng, id string) {
-		synctest.Test(t, func(t *testing.T) { c19Probe(r, id) })
+		probeBubble(t, id, func() { c19Probe(r, id) })
 	})
 	c19Prop = "C19"
 }
